@@ -48,6 +48,7 @@ func concSchema() *abs.Schema {
 			{Name: "attrs", Num: 3, Kind: "string", Card: "map", KeyKind: "string", Rules: nr()}, f("count", 4, "int32", "opt", abs.Ann{}),
 			{Name: "child", Num: 5, Kind: "message", Card: "one", Ref: "cc.v1.Child", Rules: nr()}}},
 		{Name: "UpdateReq", Fields: []*abs.Field{f("id", 1, "string", "one", abs.Ann{}), f("name", 2, "string", "one", abs.Ann{}), f("note", 3, "string", "opt", abs.Ann{})}},
+		{Name: "HealthReq", Fields: []*abs.Field{f("deep", 1, "bool", "one", q)}},
 		{Name: "EventsReq", Fields: []*abs.Field{f("since", 1, "int64", "one", q), f("kind", 2, "string", "rep", q)}},
 		{Name: "RecordReq", Fields: []*abs.Field{f("what", 1, "string", "one", abs.Ann{}), f("labels", 2, "string", "rep", abs.Ann{})}},
 	}
@@ -56,10 +57,14 @@ func concSchema() *abs.Schema {
 	}
 	upd := m("UpdateItem", "UpdateReq", "PUT", "/items/{id}")
 	upd.Headers = []*abs.Header{{Name: "X-Idem", Type: "string", Required: true}}
+	// a route that re-declares the service-level header (optional here, and with another type): what
+	// it declares is its own business and must not change what the other routes of the service demand
+	health := m("Health", "HealthReq", "GET", "/health")
+	health.Headers = []*abs.Header{{Name: "x-api-key", Type: "integer", Required: false}, {Name: "X-Probe", Type: "string", Required: false}}
 	file.Services = []*abs.Service{
 		{Name: "Items", HasBase: true, BasePath: "/api", Headers: []*abs.Header{{Name: "X-Api-Key", Type: "string", Required: true}},
 			Methods: []*abs.Method{m("ListItems", "ListReq", "GET", "/items"), m("GetItem", "GetReq", "GET", "/items/{id}"),
-				m("DeleteItem", "DelReq", "DELETE", "/items/{id}"), m("CreateItem", "CreateReq", "POST", "/items"), upd}},
+				m("DeleteItem", "DelReq", "DELETE", "/items/{id}"), m("CreateItem", "CreateReq", "POST", "/items"), upd, health}},
 		{Name: "Audit", Methods: []*abs.Method{m("ListEvents", "EventsReq", "GET", "/events"),
 			{Name: "Record", In: "cc.v1.RecordReq", Out: "cc.v1.Out"}}},
 	}
@@ -85,13 +90,18 @@ func (g *concGen) rawCall() *concCall {
 	r := g.r
 	words := []string{"a", "b", "c", "long-value", "ü", ""}
 	op := drv.Op{Op: "raw", Pkg: "gen/cc", Headers: [][2]string{}}
-	hasKey := r.Intn(12) != 0
+	hasKey := r.Intn(5) != 0
 	if hasKey {
 		op.Headers = append(op.Headers, [2]string{"X-Api-Key", pick(r, "k1", "k2")})
 	}
 	qv := url.Values{}
 	body := ""
-	switch r.Intn(7) {
+	switch r.Intn(8) {
+	case 7:
+		op.Verb, op.URL = "GET", "/api/health"
+		if r.Intn(2) == 0 {
+			qv.Set("deep", "true")
+		}
 	case 0:
 		op.Verb, op.URL = "GET", "/api/items"
 		for i := r.Intn(3); i > 0; i-- {
@@ -154,7 +164,7 @@ func (g *concGen) clientCall() *concCall {
 	r := g.r
 	type rpcT struct{ svc, rpc, in string }
 	rp := pick(r, rpcT{"Items", "ListItems", "ListReq"}, rpcT{"Items", "GetItem", "GetReq"}, rpcT{"Items", "DeleteItem", "DelReq"}, rpcT{"Items", "CreateItem", "CreateReq"},
-		rpcT{"Items", "UpdateItem", "UpdateReq"}, rpcT{"Audit", "ListEvents", "EventsReq"}, rpcT{"Audit", "Record", "RecordReq"})
+		rpcT{"Items", "UpdateItem", "UpdateReq"}, rpcT{"Items", "Health", "HealthReq"}, rpcT{"Audit", "ListEvents", "EventsReq"}, rpcT{"Audit", "Record", "RecordReq"})
 	m, _ := val.New(g.files.Files, "cc.v1."+rp.in)
 	fds := m.Descriptor().Fields()
 	for i := 0; i < fds.Len(); i++ {
@@ -289,7 +299,14 @@ func concOutcomeOf(files *abs.Built, evs []drv.Event) (concOutcome, []drv.Event)
 					rv = val.Message(m)
 				}
 			}
-			o.Out = fmt.Sprintf("ret %v %s %v %v", e["kind"], rv, e["message"], e["viol"])
+			viol := []string{}
+			if vs, ok := e["viol"].([]any); ok {
+				for _, v := range vs {
+					viol = append(viol, fmt.Sprint(v))
+				}
+				sort.Strings(viol) // a set: the server collects violations from a map
+			}
+			o.Out = fmt.Sprintf("ret %v %s %v %v", e["kind"], rv, e["message"], viol)
 		case "ServerPanic", "Timeout":
 			o.Out = fmt.Sprintf("%v", e["event"])
 		}
@@ -302,6 +319,16 @@ func canonBody(files *abs.Built, ctype string, b []byte) string {
 	if strings.HasPrefix(ctype, "application/json") {
 		var v any
 		if json.Unmarshal(b, &v) == nil {
+			// the violations of one response are a set (the server collects them from a map): order is not part of the outcome
+			if o, ok := v.(map[string]any); ok {
+				if vs, ok := o["violations"].([]any); ok {
+					sort.SliceStable(vs, func(i, j int) bool {
+						a, _ := json.Marshal(vs[i])
+						b, _ := json.Marshal(vs[j])
+						return string(a) < string(b)
+					})
+				}
+			}
 			c, _ := json.Marshal(v)
 			return string(c)
 		}
